@@ -61,6 +61,8 @@ Upd(e, r) == S' = [S EXCEPT ![e.node] = r]
 FSet(f, k, v) == [x \in DOMAIN f \cup {k} |-> IF x = k THEN v ELSE f[x]]
 FGet(f, k, d) == IF k \in DOMAIN f THEN f[k] ELSE d
 
+PlanFor(n) == FGet(G.plan, n, <<>>)
+
 \* ------------------------------------------------------------------ reading dumps (as TableTrace)
 SlotOf(x) == IF "e" \in DOMAIN x THEN Placeholder @@ [st |-> BAD]
              ELSE [id |-> x.id, addr |-> x.addr, rsp |-> x.rsp, req |-> x.req, loc |-> x.loc, cnt |-> x.cnt, st |-> x.st]
@@ -223,7 +225,6 @@ WaitersOK(n) ==
             /\ nd.waits[w].ret <= (IF nd.waits[w].at > since THEN nd.waits[w].at ELSE since) + 660000
 
 \* ------------------------------------------------------------------ C11: contacts over hours
-PlanFor(n) == FGet(G.plan, n, <<>>)
 PeerSendStep(e) ==
     \* a scripted peer answers node e.dst: remember when (C11: "last answer")
     IF e.m.y = "r" /\ e.dst \in DOMAIN S
@@ -447,7 +448,15 @@ GoodOnlyIfHeard(nd, tt) ==
         LET c == SlotC(tt, p) IN
         c.st = GOOD => (<<c.id, c.addr>> \in DOMAIN nd.heard /\ now - nd.heard[<<c.id, c.addr>>] < FIFTEEN + SLACK)
 
+\* C11 on EVERY table dump (not only on the 5 s samples): a planned always-answering contact that was reported once is never
+\* missing from the live part of the table
+NeverLost(n, nd, tt) ==
+    LET plan == PlanFor(n)
+        live == {SlotC(tt, p).addr : p \in RLiveSlots(tt, now)} IN
+    \A i \in 1..Len(plan) : (plan[i].mode = "Answer" /\ plan[i].addr \in nd.admitted) => plan[i].addr \in live
+
 TableChecks(nd, tt, ln) ==
+    /\ Chk("C11", "a-contact-that-always-answers-is-never-lost (every table dump)", ln, NeverLost(Rec[ln].node, nd, tt))
     /\ Chk("C08", "table-shape", ln, ShapeOK([tt EXCEPT !.self = nd.id], now))
     /\ Chk("C12", "good-only-if-it-answered-or-queried-us", ln, GoodOnlyIfHeard(nd, tt))
 
